@@ -1452,6 +1452,16 @@ impl Ctx {
     /// C06 epilogue: fill to Full, drain every stream, refill from drained, drain again.
     /// Results are logged as ordinary calls; the oracle evaluates them from the log.
     fn probe_quiescent(&mut self) {
+        if !self.txs.is_empty() && self.rxs.is_empty() {
+            // every receiver has left: each sender is tried twice (the log is judged by the
+            // no-receivers oracle: every one of these sends must be refused as Disconnected)
+            for i in 0..self.txs.len() {
+                let s = crate::gen::sel(i, self.txs.len());
+                self.exec(&Op::TrySend { tx: s });
+                self.exec(&Op::TrySend { tx: s });
+            }
+            return;
+        }
         if self.txs.is_empty() || self.rxs.is_empty() {
             self.skip();
             return;
